@@ -10,7 +10,7 @@ TRACE_MOD = "LiquidVestingTrace.tla"
 MANIFEST_ENTRY = dict(engine="LiquidVesting", design="§4 C11",
    technique="TLA+ spec LiquidVesting.tla (on Schedule.tla): TLC exhaustive checking of the split transcription on the whole small input space and of the ledger invariants / step clauses on all accepted message histories of the as-built machine; TLC-simulated behaviours and seeded random large histories executed on the real liquidvesting, vesting, bank and erc20 message servers; every recorded helper output and every recorded step validated by TLC against the property layer (trace validation)",
    text="The split of a lockup schedule (SubtractAmountFromPeriods) is proved exact on every period list of up to 4 periods with amounts 0..4 and every requested amount, on the model and, line by line, on the real function (plus seeded 10^18-scale inputs of up to 8 periods). Liquidate / transfer / redeem histories over three holders with scripted block times are explored exhaustively on the as-built machine (backing, schedule-sums-to-supply, exact split by release instants, no-early-unlock on redeem compared at every critical instant) and replayed on the real keepers, whose stores (module balance, liquid supply and holdings incl. the ERC20 side, Denom records, vesting account records) are projected after every message and checked by TLC.",
-   note="Bounded by the constants in specs/LiquidVesting_*.cfg; messages run through MsgServiceRouter handlers on a cached context (baseapp.runMsgs semantics) with scripted block times, not through full DeliverTx; recipients have finished vesting schedules (no delegations); locked amounts are derived from the recorded schedules through the denotation of Schedule.tla (the bank's own LockedCoins at the block time is compared as a diagnostic); TLC, the Json community module and the BigNum override are trusted.")
+   note="Bounded by the constants in specs/LiquidVesting_*.cfg; messages run through MsgServiceRouter handlers on a cached context (baseapp.runMsgs semantics) with scripted block times, not through full DeliverTx; recipients have no delegations; locked amounts are derived from the recorded schedules through the denotation of Schedule.tla (the bank's own LockedCoins at the block time is compared as a diagnostic); TLC, the Json community module and the BigNum override are trusted.")
 
 # regression scenario of finding F2 (merge_min_start, repaired in /repo by c3dec7b; on a tree that has
 # the defect it shows C11|redeem-unlocks-early|recipient=existing-vesting,accStart<denomStart): the
@@ -28,6 +28,23 @@ REPRO_F2 = {
     ]}
 
 
+# reproduction of the known finding F17 (aggregate_lock_pairs_grants): a2 holds 10 coins that unlock at
+# t=3 but vest only at t=102 (locked 10).  a1 liquidates 5 coins at t=1 that stay locked until t=10 and
+# redeems them into a2 at t=5: the right lockup event (5 @ t=10) is attached, but the 5 coins are
+# vested at once and the account locks ov - min(unlocked, vested) = 15 - min(10, 5) = 10: the bank
+# lets a2 spend 5 coins at t=5.
+REPRO_F17 = {
+    "cfg": {"seed": 17, "minLiq": "1", "accts": {
+        "a1": {"kind": "vesting", "start": 0, "lockup": [{"len": 10, "amt": {"aISLM": "5"}}]},
+        "a2": {"kind": "vesting", "start": 2, "lockup": [{"len": 1, "amt": {"aISLM": "10"}}],
+               "vesting": [{"len": 100, "amt": {"aISLM": "10"}}]},
+        "a3": {"kind": "none"}}},
+    "steps": [
+        {"ev": "liquidate", "args": {"from": "a1", "to": "a1", "amt": "5", "t": 1}},
+        {"ev": "redeem", "args": {"from": "a1", "to": "a2", "denom": "aLIQUID0", "amt": "5", "t": 5}},
+    ]}
+
+
 def _validate(wd):
     res, r = validate_trace(wd, TRACE_MOD, TRACE_CFG, timeout=3000)
     n = count_lines(os.path.join(wd, "trace.ndjson"))
@@ -36,17 +53,28 @@ def _validate(wd):
     return res
 
 
+def _read(start, periods, t):
+    """the reader of specs/Schedule.tla: sum of the periods ended by t, zero up to the start"""
+    if t <= start:
+        return 0
+    tot, at = 0, start
+    for p in periods:
+        at += p["len"]
+        if at <= t:
+            tot += int(p["amt"]["aISLM"])
+    return tot
+
+
 def _redeem_kind(prev, args):
-    """recipient class of a redeem, computed from the state before it"""
+    """recipient of a redeem whose lockup AND vesting are both still running at the block time
+    (the recipient classes themselves are counted by the trace specification: stats.redeems)"""
     a = prev["acct"].get(args["to"])
-    if a is None:
-        return "unknown"
-    if a["kind"] != "vesting":
-        return "fresh" if a["kind"] == "none" else "plain"
-    d = [d for d in prev["denoms"] if d["id"] == args["denom"]]
-    if not d:
-        return "vesting?"
-    return "vesting<" if a["start"] < d[0]["start"] else ("vesting=" if a["start"] == d[0]["start"] else "vesting>")
+    if a is None or a["kind"] != "vesting":
+        return "other"
+    ov, t = int(a["ov"]), args["t"]
+    if t > a["start"] and _read(a["start"], a["lockup"], t) < ov and _read(a["start"], a["vesting"], t) < ov:
+        return "both-running"
+    return "other"
 
 
 def _coverage(path, c):
@@ -88,7 +116,7 @@ def _coverage(path, c):
                 cov["redeem_full_ok" if full else "redeem_partial_ok"] += 1
                 k = _redeem_kind(prev, o["args"])
                 cov["redeem_into"][k] = cov["redeem_into"].get(k, 0) + 1
-                if len(c.samples) < 5 and k in ("fresh", "vesting>"):
+                if len(c.samples) < 5 and k == "both-running":
                     c.samples.append({"ev": ev, "args": o["args"], "ok": True, "recipient": k,
                                       "post_recipient": o["post"]["acct"][o["args"]["to"]],
                                       "post_denom": d[0] if d else None, "post_mod": o["post"]["mod"]})
@@ -117,26 +145,31 @@ def run(c):
     c.add_tlc("LiquidVesting_split.cfg", r)
     if r.distinct < 7000:
         raise Infra("split input space smaller than expected: %d" % r.distinct)
-    cfgs = ["LiquidVesting_intended.cfg"] if quick else \
-        ["LiquidVesting_intended_thorough.cfg", "LiquidVesting_intended_b.cfg", "LiquidVesting_defect_comp_b.cfg"]
+    #    Two named deviations: merge_min_start (F2, repaired in /repo; must stay recognisable) and
+    #    aggregate_lock_pairs_grants (F17, present: redeem into a recipient whose vesting is unfinished).
+    cfgs = ["LiquidVesting_intended.cfg", "LiquidVesting_intended_c.cfg", "LiquidVesting_defect2_comp.cfg"] if quick else \
+        ["LiquidVesting_intended_thorough.cfg", "LiquidVesting_intended_b.cfg", "LiquidVesting_intended_c_thorough.cfg",
+         "LiquidVesting_defect_comp_b.cfg", "LiquidVesting_defect2_comp_thorough.cfg"]
     for cfg in cfgs:
         r = tlc_exhaustive(wd, "LiquidVesting.tla", cfg, workers=4, timeout=3000)
         c.add_tlc(cfg, r)
     r = tlc_exhaustive(wd, "LiquidVesting.tla", "LiquidVesting_defect_comp.cfg", workers=4, timeout=1500)
     c.add_tlc("LiquidVesting_defect_comp.cfg", r)
-    r = tlc_exhaustive(wd, "LiquidVesting.tla", "LiquidVesting_defect_strict.cfg", must="fail", workers=4)
-    c.add_tlc("LiquidVesting_defect_strict.cfg", r)
+    for cfg in ("LiquidVesting_defect_strict.cfg", "LiquidVesting_defect2_strict.cfg"):
+        r = tlc_exhaustive(wd, "LiquidVesting.tla", cfg, must="fail", workers=4)
+        c.add_tlc(cfg, r)
 
     # 2. spec -> code: behaviours of the as-built machine as scripts (two initial configurations), the
     #    regression scenario of finding F2, the enumerated split inputs and seeded random inputs
-    nscripts = 120 if quick else 1500
+    nscripts = 100 if quick else 1200
     scripts = []
-    for cfg in ("LiquidVesting_sim.cfg", "LiquidVesting_sim2.cfg"):
+    for cfg in ("LiquidVesting_sim.cfg", "LiquidVesting_sim2.cfg", "LiquidVesting_sim3.cfg"):
         sc, _ = tlc_scripts(wd, "LiquidVesting.tla", cfg, nscripts, 7, c.seed)
         if len(sc) < nscripts // 2:
             raise Infra("too few scripts generated from %s: %d" % (cfg, len(sc)))
         scripts += [{"cfg": s["cfg"], "steps": [{"ev": st["ev"], "args": st["args"]} for st in s["steps"]]} for s in sc]
     scripts.append(REPRO_F2)
+    scripts.append(REPRO_F17)
     with open(os.path.join(wd, "scripts.json"), "w") as fh:
         json.dump(scripts, fh)
     nrandom = 80 if quick else 1500
@@ -192,8 +225,13 @@ def run(c):
               ("redeem_full_ok", 30), ("splits_ok", 6000), ("splits_with_residue", 1000), ("splits_rejected", 500),
               ("helper_lines", 500)]
     thin = ["%s = %d < %d" % (k, cov[k], n) for k, n in floors if cov[k] < n]
-    thin += ["successful redeems into a recipient of kind %s: %d < 5" % (k, cov["redeem_into"].get(k, 0))
-             for k in ("fresh", "plain", "vesting<", "vesting>") if cov["redeem_into"].get(k, 0) < 5]
+    classes = {k: n for k, n in res["stats"]["redeems"].items() if k != "none"}
+    classes["both-running"] = cov["redeem_into"].get("both-running", 0)
+    cov["redeem_into"] = classes
+    thin += ["successful redeems into %s: %d < 5" % (k, classes.get(k, 0))
+             for k in ("recipient=fresh", "recipient=plain", "recipient=existing-vesting,accStart<denomStart",
+                       "recipient=existing-vesting,accStart>denomStart", "recipient=vesting-unfinished,lockup-ahead",
+                       "recipient=vesting-unfinished,lockup-not-ahead", "both-running") if classes.get(k, 0) < 5]
     if thin:
         known = {k["signature"] for k in load_known() if k["property"] == "C11" and k.get("status", "known") == "known"}
         if all(sig_of(v) in known for v in confirmed):
